@@ -9,7 +9,7 @@ static CURRENT: Mutex<String> = Mutex::new(String::new());
 fn now_ms() -> u64 { SystemTime::now().duration_since(UNIX_EPOCH).unwrap().as_millis() as u64 }
 
 pub fn enter(history: &[String]) {
-    let tail = history.iter().rev().take(60).rev().cloned().collect::<Vec<_>>().join(" ; ");
+    let tail = history.iter().rev().take(60).rev().map(|l| if l.len() > 300 { format!("{}…[{} chars]", &l[..300], l.len()) } else { l.clone() }).collect::<Vec<_>>().join(" ; ");
     *CURRENT.lock().unwrap() = tail;
     STARTED.store(now_ms(), Ordering::SeqCst);
 }
